@@ -98,10 +98,160 @@ pub open spec fn ev(e: PlistEntry) -> EV {
 pub open spec fn evs(es: Seq<PlistEntry>) -> Seq<EV> { Seq::new(es.len(), |i: int| ev(es[i])) }
 
 impl PlistEntry {
-    #[verifier::external_body]
+//@ extract src/plist.rs : impl PlistEntry fn from_bytes
+//@ rewrite D7.expand_macros D6.osstr_from_bytes D6.position_byte D6.lossy_owned D1.for_subslice D6.string_starts_with_char D6.osstring_from_cmd D6.osstring_from_osstr D6.string_from_utf8_os D6.opt_os_to_str
     pub fn from_bytes(bytes: &[u8]) -> (r: Result<PlistEntry>)
-        ensures (match entry_spec(bytes@) { Ok(v) => r is Ok && ev(r->Ok_0) == v, Err(k) => r is Err && perr(r->Err_0) == k })
-    { unimplemented!() }
+        ensures (match entry_spec(bytes@) { Ok(v) => r is Ok && ev(r->Ok_0) == v, Err(k) => r is Err && (k != PErr::Utf8 ==> perr(r->Err_0) == k) })
+    {
+        let ghost b0 = bytes@;
+        let line = OsStr::from_bytes(bytes);
+        let end = bytes.len();
+        let bytes = &bytes[0..end];
+        proof { assert(bytes@ =~= b0); lemma_first_byte(b0, 32u8); lemma_cmd_lits(); }
+        let (mut idx, cmd) = match bytes.iter().position(|&c| c == b' ') {
+            Some(i) => (i, String::from_utf8_lossy(&bytes[0..i]).into_owned()),
+            None => (0, String::from_utf8_lossy(bytes).into_owned()),
+        };
+        let args = if idx == 0 || idx + 1 >= end {
+            None
+        } else {
+            let ghost idx0 = idx as int;
+            let __s = &bytes[idx..end];
+            let mut __k: usize = 0;
+            while __k < __s.len()
+                invariant_except_break idx == idx0 + __k,
+                invariant 0 <= idx0 <= idx <= end, __k <= __s@.len(), end == b0.len(), bytes@ == b0,
+                    __s@ == b0.subrange(idx0, end as int),
+                    forall|i: int| idx0 <= i < idx ==> ws(b0[i]),
+                ensures 0 <= idx0 <= idx <= end, idx == end || !ws(b0[idx as int]), forall|i: int| idx0 <= i < idx ==> ws(b0[i]),
+                decreases __s@.len() - __k
+            {
+                let c = &__s[__k];
+                __k += 1;
+                proof { assert(*c == b0[idx as int]); lemma_ws_char(*c); }
+                if c.is_ascii() && (*c as char).is_whitespace() {
+                    idx += 1;
+                    continue;
+                }
+                break;
+            }
+            proof { lemma_skip_ws_unique(b0, idx0, idx as int); }
+            if idx == end {
+                None
+            } else {
+                Some(OsStr::from_bytes(&bytes[idx..end]))
+            }
+        };
+        proof {
+            assert(cmd_bytes_ok(b0, cmd@));
+            assert(opt_osb(args) == arg_of(b0));
+            assert(osb(line) == b0);
+        }
+        if cmd.starts_with('@') {
+            proof {
+                assert forall|t: &str| (t == "@cwd") == (#[trigger] t@ == "@cwd"@) by { axiom_str_ext(t, "@cwd"); }
+                assert forall|t: &str| (t == "@src") == (#[trigger] t@ == "@src"@) by { axiom_str_ext(t, "@src"); }
+                assert forall|t: &str| (t == "@cd") == (#[trigger] t@ == "@cd"@) by { axiom_str_ext(t, "@cd"); }
+                assert forall|t: &str| (t == "@exec") == (#[trigger] t@ == "@exec"@) by { axiom_str_ext(t, "@exec"); }
+                assert forall|t: &str| (t == "@unexec") == (#[trigger] t@ == "@unexec"@) by { axiom_str_ext(t, "@unexec"); }
+                assert forall|t: &str| (t == "@option") == (#[trigger] t@ == "@option"@) by { axiom_str_ext(t, "@option"); }
+                assert forall|t: &str| (t == "@mode") == (#[trigger] t@ == "@mode"@) by { axiom_str_ext(t, "@mode"); }
+                assert forall|t: &str| (t == "@owner") == (#[trigger] t@ == "@owner"@) by { axiom_str_ext(t, "@owner"); }
+                assert forall|t: &str| (t == "@group") == (#[trigger] t@ == "@group"@) by { axiom_str_ext(t, "@group"); }
+                assert forall|t: &str| (t == "@comment") == (#[trigger] t@ == "@comment"@) by { axiom_str_ext(t, "@comment"); }
+                assert forall|t: &str| (t == "@ignore") == (#[trigger] t@ == "@ignore"@) by { axiom_str_ext(t, "@ignore"); }
+                assert forall|t: &str| (t == "@name") == (#[trigger] t@ == "@name"@) by { axiom_str_ext(t, "@name"); }
+                assert forall|t: &str| (t == "@pkgdep") == (#[trigger] t@ == "@pkgdep"@) by { axiom_str_ext(t, "@pkgdep"); }
+                assert forall|t: &str| (t == "@blddep") == (#[trigger] t@ == "@blddep"@) by { axiom_str_ext(t, "@blddep"); }
+                assert forall|t: &str| (t == "@pkgcfl") == (#[trigger] t@ == "@pkgcfl"@) by { axiom_str_ext(t, "@pkgcfl"); }
+                assert forall|t: &str| (t == "@pkgdir") == (#[trigger] t@ == "@pkgdir"@) by { axiom_str_ext(t, "@pkgdir"); }
+                assert forall|t: &str| (t == "@dirrm") == (#[trigger] t@ == "@dirrm"@) by { axiom_str_ext(t, "@dirrm"); }
+                assert forall|t: &str| (t == "@display") == (#[trigger] t@ == "@display"@) by { axiom_str_ext(t, "@display"); }
+                assert forall|t: &str| (t == "preserve") == (#[trigger] t@ == "preserve"@) by { axiom_str_ext(t, "preserve"); }
+                assert forall|t: &str| #[trigger] t.spec_bytes() == encode_utf8(t@) by {}
+                assert forall|t: &str| encode_utf8(#[trigger] t@) == encode_utf8("preserve"@) implies t@ == "preserve"@ by {
+                    encode_utf8_decode_utf8(t@); encode_utf8_decode_utf8("preserve"@);
+                }
+            }
+            match cmd.as_str() {
+                "@cwd" | "@src" | "@cd" => {
+                    plist_args_osstr!(args, PlistEntry::Cwd, line)
+                }
+                "@exec" => plist_args_osstr!(args, PlistEntry::Exec, line),
+                "@unexec" => plist_args_osstr!(args, PlistEntry::UnExec, line),
+                "@option" => match args.and_then(OsStr::to_str) {
+                    Some("preserve") => {
+                        Ok(PlistEntry::PkgOpt(PlistOption::Preserve))
+                    }
+                    Some(_) => {
+                        Err(PlistError::UnsupportedCommand(OsString::from(cmd)))
+                    }
+                    None => Err(PlistError::IncorrectArguments(
+                        OsString::from(line),
+                    )),
+                },
+                "@mode" => plist_args_str_opt!(args, PlistEntry::Mode),
+                "@owner" => plist_args_str_opt!(args, PlistEntry::Owner),
+                "@group" => plist_args_str_opt!(args, PlistEntry::Group),
+                "@comment" => plist_args_osstr_opt!(args, PlistEntry::Comment),
+                "@ignore" => match args {
+                    Some(_) => Err(PlistError::IncorrectArguments(
+                        OsString::from(line),
+                    )),
+                    None => Ok(PlistEntry::Ignore),
+                },
+                "@name" => plist_args_str!(args, PlistEntry::Name, line),
+                "@pkgdep" => plist_args_str!(args, PlistEntry::PkgDep, line),
+                "@blddep" => plist_args_str!(args, PlistEntry::BldDep, line),
+                "@pkgcfl" => plist_args_str!(args, PlistEntry::PkgCfl, line),
+                "@pkgdir" => plist_args_osstr!(args, PlistEntry::PkgDir, line),
+                "@dirrm" => plist_args_osstr!(args, PlistEntry::DirRm, line),
+                "@display" => {
+                    plist_args_osstr!(args, PlistEntry::Display, line)
+                }
+                _ => Err(PlistError::UnsupportedCommand(OsString::from(cmd))),
+            }
+        } else {
+            Ok(PlistEntry::File(OsString::from(OsStr::from_bytes(bytes))))
+        }
+    }
+//@ end
+}
+/// what the (lossily decoded) command word must satisfy w.r.t. the line's bytes
+pub open spec fn cmd_bytes_ok(b: Seq<u8>, cmd: Seq<char>) -> bool {
+    ((cmd.len() > 0 && cmd[0] == '@') == (cmd_of(b).len() > 0 && cmd_of(b)[0] == 0x40u8))
+    && forall|l: Seq<char>| is_ascii_chars(l) ==> ((cmd == l) == (cmd_of(b) == #[trigger] encode_utf8(l)))
+}
+pub open spec fn opt_osb(a: Option<&OsStr>) -> Option<Seq<u8>> { match a { Some(o) => Some(osb(o)), None => None } }
+pub proof fn lemma_cmd_lits()
+    ensures is_ascii_chars("@cwd"@), is_ascii_chars("@src"@), is_ascii_chars("@cd"@), is_ascii_chars("@exec"@), is_ascii_chars("@unexec"@), is_ascii_chars("@option"@), is_ascii_chars("@mode"@), is_ascii_chars("@owner"@), is_ascii_chars("@group"@), is_ascii_chars("@comment"@), is_ascii_chars("@ignore"@), is_ascii_chars("@name"@), is_ascii_chars("@pkgdep"@), is_ascii_chars("@blddep"@), is_ascii_chars("@pkgcfl"@), is_ascii_chars("@pkgdir"@), is_ascii_chars("@dirrm"@), is_ascii_chars("@display"@), is_ascii_chars("preserve"@)
+{
+    reveal_strlit("@cwd");
+    reveal_strlit("@src");
+    reveal_strlit("@cd");
+    reveal_strlit("@exec");
+    reveal_strlit("@unexec");
+    reveal_strlit("@option");
+    reveal_strlit("@mode");
+    reveal_strlit("@owner");
+    reveal_strlit("@group");
+    reveal_strlit("@comment");
+    reveal_strlit("@ignore");
+    reveal_strlit("@name");
+    reveal_strlit("@pkgdep");
+    reveal_strlit("@blddep");
+    reveal_strlit("@pkgcfl");
+    reveal_strlit("@pkgdir");
+    reveal_strlit("@dirrm");
+    reveal_strlit("@display");
+    reveal_strlit("preserve");
+}
+pub proof fn lemma_skip_ws_unique(b: Seq<u8>, from: int, k: int)
+    requires 0 <= from <= k <= b.len(), forall|i: int| from <= i < k ==> ws(b[i]), k == b.len() || !ws(b[k])
+    ensures skip_ws(b, from) == k
+    decreases k - from
+{
+    if from < k { lemma_skip_ws_unique(b, from + 1, k); }
 }
 pub open spec fn perr(e: PlistError) -> PErr {
     match e { PlistError::UnsupportedCommand(_) => PErr::Unsupported, PlistError::IncorrectArguments(_) => PErr::Incorrect, PlistError::Utf8(_) => PErr::Utf8 }
